@@ -646,6 +646,8 @@ func ruleR5StackAgreement(c *Ctx) []Obligation {
 			obs = append(obs, Obligation{Key: r.dispatch.name + "|callback results pushed by call opcodes", Status: Undecided, Detail: "no opcode of the call lowering pushes a value obtained from a Go callback: re-anchor the rule"})
 		}
 	}
+	// round 6 (2b): opcodes of the call lowering that push on every completing path need a non-null static type
+	obs = append(obs, r6emSpawnTyping(c, roles, r, nullTypeK, dropIsConditional, dropDesc)...)
 	return obs
 }
 
